@@ -3,6 +3,8 @@ package c20
 
 import (
 	"fmt"
+	"os"
+	"path/filepath"
 	"regexp"
 	"strings"
 	"sync"
@@ -94,6 +96,16 @@ func (s *S) Run(c *scen.Ctx) {
 	for i := range loggers {
 		loggers[i] = rogger.GetLogger(fmt.Sprintf("verif%d", i))
 		loggers[i].SetWriter(s.writers[i])
+	}
+	if simrt.Draw(6, "c20.gracerestart") == 5 {
+		// a graceful restart was requested earlier: the process has started its successor and goes on
+		// serving and logging until it exits
+		c.Count("fault.graceful_restart_before_logging", 1)
+		if cfg := tars.GetServerConfig(); cfg != nil {
+			// (a process started without a configuration file has no log directory: give it one)
+			cfg.LogPath, cfg.App, cfg.Server = filepath.Join(os.TempDir(), "vsim-c20-logs"), "App", "Srv"
+		}
+		tars.VerifGraceRestart()
 	}
 	ng := 1 + simrt.Draw(4, "c20.goroutines")
 	per := 1 + simrt.Draw(6, "c20.per")
